@@ -9,10 +9,15 @@ Definition R1 (x : hstate) (y : Z * bool) : Prop :=
   h_loads x = fst y /\ h_cached x = snd y /\
   (h_cached x = true -> h_cache x = Some (h_loads x)).
 
-Definition R (s : state) (t : sstate) : Prop := forall h, R1 (hget s h) (sget t h).
+Definition Rh (s : hstates) (t : shandles) : Prop := forall h, R1 (hget s h) (sget t h).
+Definition R (s : state) (t : sstate) : Prop :=
+  Rh (st_h s) (sp_h t) /\ st_cur s = sp_cur t.
 
-Lemma R_init : R [] [].
-Proof. intros h. unfold hget, sget. cbn. repeat split; auto. discriminate. Qed.
+Lemma R_init : R st_init sp_init.
+Proof.
+  split; [|reflexivity]. intros h. unfold hget, sget. cbn.
+  repeat split; auto. discriminate.
+Qed.
 
 Lemma hget_aset s h h' x : hget (aset h x s) h' = if h' =? h then x else hget s h'.
 Proof. unfold hget. rewrite alookup_aset. destruct (h' =? h); reflexivity. Qed.
@@ -20,10 +25,18 @@ Proof. unfold hget. rewrite alookup_aset. destruct (h' =? h); reflexivity. Qed.
 Lemma sget_aset s h h' x : sget (aset h x s) h' = if h' =? h then x else sget s h'.
 Proof. unfold sget. rewrite alookup_aset. destruct (h' =? h); reflexivity. Qed.
 
-Lemma R_aset s t h x y : R s t -> R1 x y -> R (aset h x s) (aset h y t).
+Lemma Rh_aset s t h x y : Rh s t -> R1 x y -> Rh (aset h x s) (aset h y t).
 Proof.
   intros HR H1 h'. rewrite hget_aset, sget_aset. destruct (h' =? h); auto.
 Qed.
+
+Lemma R1_clear x y : R1 x y -> R1 (clear x) (fst y, false).
+Proof.
+  intros (Hl & _ & _). unfold clear. repeat split; cbn; auto. discriminate.
+Qed.
+
+Lemma Rh_clear s t h : Rh s t -> Rh (aset h (clear (hget s h)) s) (sclear h t).
+Proof. intros HR. unfold sclear. apply Rh_aset; auto. apply R1_clear, HR. Qed.
 
 (* Handle.__call__ characterised: the value returned is always the object
    of the most recent load, and load runs iff nothing was cached *)
@@ -52,45 +65,59 @@ Lemma step_sim s t o ob s' :
   R s t -> step s o ob = Some s' ->
   exists t', spec_step t o ob = Some t' /\ R s' t'.
 Proof.
-  intros HR Hs. destruct o as [h p|h|h]; cbn [step spec_step] in *.
-  - pose proof (HR h) as H1. destruct (sget t h) as [n since] eqn:Et.
+  intros [HR Hcur] Hs. destruct o as [h p|h|h|h cc cn]; cbn [step spec_step] in *.
+  - pose proof (HR h) as H1. destruct (sget (sp_h t) h) as [n since] eqn:Et.
     destruct p; cbn [loading].
-    1-4: destruct (call (hget s h)) as [x' v] eqn:Ec;
+    1-4: destruct (call (hget (st_h s) h)) as [x' v] eqn:Ec;
          destruct (call_spec _ _ _ _ H1 Ec) as (Hl & Hv & HR1); cbn [fst snd] in Hl;
          rewrite Hv in Hs;
          destruct (o_loads ob =? h_loads x') eqn:E1; cbn [andb] in Hs; [|discriminate];
          destruct (o_flag ob) eqn:E2; cbn [Bool.eqb] in Hs; [|discriminate];
          injection Hs as <-; apply Z.eqb_eq in E1;
          rewrite <- Hl, E1, Z.eqb_refl; cbn [andb];
-         eexists; split; [reflexivity|]; apply R_aset; auto.
+         eexists; split; [reflexivity|]; split; cbn; [apply Rh_aset; auto|auto].
     + (* PGet *) destruct H1 as (Hl & _). cbn [fst] in Hl. rewrite <- Hl.
-      destruct ((o_loads ob =? h_loads (hget s h)) && o_flag ob); [|discriminate].
-      injection Hs as <-. eauto.
+      destruct ((o_loads ob =? h_loads (hget (st_h s) h)) && o_flag ob); [|discriminate].
+      injection Hs as <-. eexists; split; [reflexivity|]. split; auto.
     + (* PSGet *) destruct H1 as (Hl & _). cbn [fst] in Hl. rewrite <- Hl.
-      destruct ((o_loads ob =? h_loads (hget s h)) && o_flag ob); [|discriminate].
-      injection Hs as <-. eauto.
-    + (* PSwitch: two calls *)
-      destruct (call (hget s h)) as [x1 v1] eqn:Ec1.
-      rewrite (call_call _ _ _ Ec1) in Hs.
-      destruct (call_spec _ _ _ _ H1 Ec1) as (Hl & Hv & HR1); cbn [fst snd] in Hl.
-      rewrite Hv in Hs.
-      destruct (o_loads ob =? h_loads x1) eqn:E1; cbn [andb] in Hs; [|discriminate].
-      destruct (o_flag ob) eqn:E2; cbn [Bool.eqb] in Hs; [|discriminate].
-      injection Hs as <-. apply Z.eqb_eq in E1.
-      rewrite <- Hl, E1, Z.eqb_refl. cbn [andb].
-      eexists; split; [reflexivity|]. apply R_aset; auto.
-  - pose proof (HR h) as H1. destruct (sget t h) as [n since] eqn:Et.
+      destruct ((o_loads ob =? h_loads (hget (st_h s) h)) && o_flag ob); [|discriminate].
+      injection Hs as <-. eexists; split; [reflexivity|]. split; auto.
+  - pose proof (HR h) as H1. destruct (sget (sp_h t) h) as [n since] eqn:Et.
     destruct H1 as (Hl & Hc & Hk). cbn [fst snd] in *.
     cbn [clear h_loads] in Hs. rewrite Hl in Hs.
-    destruct (o_loads ob =? n) eqn:E1; cbn [andb] in Hs; [|discriminate].
-    destruct (o_flag ob); [|discriminate]. injection Hs as <-.
-    eexists; split; [reflexivity|]. apply R_aset; auto.
-    repeat split; cbn; auto. discriminate.
-  - pose proof (HR h) as H1. destruct (sget t h) as [n since] eqn:Et.
+    destruct ((o_loads ob =? n) && o_flag ob); [|discriminate]. injection Hs as <-.
+    eexists; split; [reflexivity|]. split; cbn; auto.
+    apply Rh_clear; auto.
+  - pose proof (HR h) as H1. destruct (sget (sp_h t) h) as [n since] eqn:Et.
     destruct H1 as (Hl & Hc & Hk). cbn [fst snd] in *.
     rewrite Hl, Hc in Hs.
     destruct ((o_loads ob =? n) && Bool.eqb (o_flag ob) since); [|discriminate].
-    injection Hs as <-. eauto.
+    injection Hs as <-. eexists; split; [reflexivity|]. split; auto.
+  - (* OSwitch *)
+    rewrite <- Hcur.
+    set (s1 := match st_cur s with
+               | Some c => if cc then aset c (clear (hget (st_h s) c)) (st_h s) else st_h s
+               | None => st_h s end) in *.
+    set (t1 := match st_cur s with
+               | Some c => if cc then sclear c (sp_h t) else sp_h t
+               | None => sp_h t end).
+    assert (HR1 : Rh s1 t1).
+    { subst s1 t1. destruct (st_cur s) as [c|]; auto. destruct cc; auto.
+      apply Rh_clear; auto. }
+    set (s2 := if cn then aset h (clear (hget s1 h)) s1 else s1) in *.
+    set (t2 := if cn then sclear h t1 else t1).
+    assert (HR2 : Rh s2 t2).
+    { subst s2 t2. destruct cn; auto. apply Rh_clear; auto. }
+    pose proof (HR2 h) as H1. destruct (sget t2 h) as [n since] eqn:Et.
+    destruct (call (hget s2 h)) as [x1 v1] eqn:Ec1.
+    rewrite (call_call _ _ _ Ec1) in Hs.
+    destruct (call_spec _ _ _ _ H1 Ec1) as (Hl & Hv & HRx); cbn [fst snd] in Hl.
+    rewrite Hv in Hs.
+    destruct (o_loads ob =? h_loads x1) eqn:E1; cbn [andb] in Hs; [|discriminate].
+    destruct (o_flag ob) eqn:E2; cbn [Bool.eqb] in Hs; [|discriminate].
+    injection Hs as <-. apply Z.eqb_eq in E1.
+    rewrite <- Hl, E1, Z.eqb_refl. cbn [andb].
+    eexists; split; [reflexivity|]. split; cbn; auto. apply Rh_aset; auto.
 Qed.
 
 Lemma run_sim tr : forall s t s',
@@ -104,68 +131,122 @@ Qed.
 
 Theorem accepts_holds tr : accepts tr = true -> holds tr.
 Proof.
-  unfold accepts, holds, holds_b. destruct (run [] tr) as [s'|] eqn:E; [|discriminate].
+  unfold accepts, holds, holds_b. destruct (run st_init tr) as [s'|] eqn:E; [|discriminate].
   intros _. destruct (run_sim _ _ _ _ R_init E) as (t' & -> & _). reflexivity.
 Qed.
 
-(* What [holds] means, stated directly on the observations (so that the
-   boolean spec machine is not itself trusted): consider one handle h and two
-   consecutive observations of it with no clear in between... the load count
-   does not move once an access has happened since the last clear. *)
-Definition touches (h : Z) (o : op) : bool :=
-  match o with OAccess h' _ | OClear h' | OCached h' => h =? h' end.
-
-Lemma spec_step_other t o ob t' h :
-  spec_step t o ob = Some t' -> touches h o = false -> sget t' h = sget t h.
-Proof.
-  destruct o as [h' p|h'|h']; cbn [spec_step touches]; intros Hs Ht;
-    destruct (sget t h') as [n since].
-  - destruct (loading p).
-    + destruct (_ && _); [|discriminate]. injection Hs as <-. now rewrite sget_aset, Ht.
-    + destruct (_ && _); [|discriminate]. now injection Hs as <-.
-  - destruct (_ =? _); [|discriminate]. injection Hs as <-. now rewrite sget_aset, Ht.
-  - destruct (_ && _); [|discriminate]. now injection Hs as <-.
-Qed.
-
-(* at most one load between two clears: along any accepted-by-spec trace
-   without OClear h, the load count of h grows by at most one in total, and
-   does not grow at all after the first loading access *)
-Fixpoint no_clear (h : Z) (tr : trace) : bool :=
-  match tr with
-  | [] => true
-  | (OClear h', _) :: tr => negb (h =? h') && no_clear h tr
-  | _ :: tr => no_clear h tr
+(* ---- what [holds] says on raw observations ------------------------------
+   [clears h cur o]: operation o clears handle h (cur = handle the loop is on) *)
+Definition clears (h : Z) (cur : option Z) (o : op) : bool :=
+  match o with
+  | OClear h' => h =? h'
+  | OSwitch h' cc cn =>
+      (cn && (h =? h')) ||
+      (cc && match cur with Some c => h =? c | None => false end)
+  | _ => false
   end.
 
+Definition touches (h : Z) (o : op) : bool :=
+  match o with OAccess h' _ | OClear h' | OCached h' | OSwitch h' _ _ => h =? h' end.
+
+Definition next_cur (cur : option Z) (o : op) : option Z :=
+  match o with OSwitch h _ _ => Some h | _ => cur end.
+
+Fixpoint no_clear (h : Z) (cur : option Z) (tr : trace) : bool :=
+  match tr with
+  | [] => true
+  | (o, _) :: tr => negb (clears h cur o) && no_clear h (next_cur cur o) tr
+  end.
+
+Lemma sget_sclear s h h' :
+  sget (sclear h s) h' = if h' =? h then (fst (sget s h), false) else sget s h'.
+Proof. unfold sclear. apply sget_aset. Qed.
+
+(* one spec step on a handle that is loaded and not cleared by the step:
+   the handle stays (n, true) and, if the step observes it, it reports n *)
+Lemma spec_step_loaded t o ob t' h n :
+  spec_step t o ob = Some t' -> clears h (sp_cur t) o = false ->
+  sget (sp_h t) h = (n, true) ->
+  sget (sp_h t') h = (n, true) /\ sp_cur t' = next_cur (sp_cur t) o /\
+  (touches h o = true -> o_loads ob = n).
+Proof.
+  intros Hs Hc Hg. destruct o as [h' p|h'|h'|h' cc cn]; cbn [spec_step clears touches next_cur] in *.
+  - destruct (sget (sp_h t) h') as [m since] eqn:Eg'.
+    destruct (h =? h') eqn:Eh.
+    + apply Z.eqb_eq in Eh; subst h'. rewrite Hg in Eg'. injection Eg' as <- <-.
+      destruct (loading p).
+      * destruct (o_loads ob =? n) eqn:E1; cbn [andb] in Hs; [|discriminate].
+        destruct (o_flag ob); [|discriminate]. injection Hs as <-. cbn.
+        rewrite sget_aset, Z.eqb_refl. apply Z.eqb_eq in E1. auto.
+      * destruct (o_loads ob =? n) eqn:E1; cbn [andb] in Hs; [|discriminate].
+        destruct (o_flag ob); [|discriminate]. injection Hs as <-.
+        apply Z.eqb_eq in E1. auto.
+    + destruct (loading p).
+      * destruct (_ && _); [|discriminate]. injection Hs as <-. cbn.
+        rewrite sget_aset, Eh. repeat split; auto. discriminate.
+      * destruct (_ && _); [|discriminate]. injection Hs as <-.
+        repeat split; auto. discriminate.
+  - destruct (sget (sp_h t) h') as [m since] eqn:Eg'.
+    destruct (_ && _); [|discriminate]. injection Hs as <-. cbn.
+    rewrite sget_sclear, Hc. repeat split; auto. discriminate.
+  - destruct (sget (sp_h t) h') as [m since] eqn:Eg'.
+    destruct (h =? h') eqn:Eh.
+    + apply Z.eqb_eq in Eh; subst h'. rewrite Hg in Eg'. injection Eg' as <- <-.
+      destruct (o_loads ob =? n) eqn:E1; cbn [andb] in Hs; [|discriminate].
+      destruct (Bool.eqb (o_flag ob) true); [|discriminate]. injection Hs as <-.
+      apply Z.eqb_eq in E1. auto.
+    + destruct (_ && _); [|discriminate]. injection Hs as <-.
+      repeat split; auto. discriminate.
+  - apply orb_false_iff in Hc. destruct Hc as [Hc1 Hc2].
+    set (s1 := match sp_cur t with
+               | Some c => if cc then sclear c (sp_h t) else sp_h t
+               | None => sp_h t end) in *.
+    assert (Hg1 : sget s1 h = (n, true)).
+    { subst s1. destruct (sp_cur t) as [c|]; auto. destruct cc; auto.
+      cbn [andb] in Hc2. rewrite sget_sclear, Hc2. exact Hg. }
+    set (s2 := if cn then sclear h' s1 else s1) in *.
+    assert (Hg2 : sget s2 h = (n, true)).
+    { subst s2. destruct cn; auto. cbn [andb] in Hc1. rewrite sget_sclear, Hc1. exact Hg1. }
+    destruct (sget s2 h') as [m since] eqn:Eg'.
+    destruct (h =? h') eqn:Eh.
+    + apply Z.eqb_eq in Eh; subst h'. rewrite Hg2 in Eg'. injection Eg' as <- <-.
+      destruct (o_loads ob =? n) eqn:E1; cbn [andb] in Hs; [|discriminate].
+      destruct (o_flag ob); [|discriminate]. injection Hs as <-. cbn.
+      rewrite sget_aset, Z.eqb_refl. apply Z.eqb_eq in E1. auto.
+    + destruct (_ && _); [|discriminate]. injection Hs as <-. cbn.
+      rewrite sget_aset, Eh. repeat split; auto. discriminate.
+Qed.
+
+(* at most one load between two clears: along any trace satisfying the
+   property, from a point where h has been accessed since its last clear and
+   as long as no operation clears h (explicitly or through a switch), every
+   observation of h reports the same load count *)
 Lemma loads_stable_when_loaded tr : forall t t' h n,
-  spec_run t tr = Some t' -> no_clear h tr = true -> sget t h = (n, true) ->
-  sget t' h = (n, true) /\
+  spec_run t tr = Some t' -> no_clear h (sp_cur t) tr = true ->
+  sget (sp_h t) h = (n, true) ->
+  sget (sp_h t') h = (n, true) /\
   forall o ob, In (o, ob) tr -> touches h o = true -> o_loads ob = n.
 Proof.
   induction tr as [|[o ob] tr IH]; intros t t' h n Hr Hn Hg; cbn [spec_run] in Hr.
   - injection Hr as <-. split; auto. intros ? ? [].
   - destruct (spec_step t o ob) as [t1|] eqn:Es; [|discriminate].
-    assert (Hg1 : sget t1 h = (n, true) /\ (touches h o = true -> o_loads ob = n)).
-    { destruct (touches h o) eqn:Et.
-      - destruct o as [h' p|h'|h']; cbn [touches] in Et; apply Z.eqb_eq in Et; subst h';
-          cbn [spec_step] in Es; rewrite Hg in Es.
-        + destruct (loading p).
-          * destruct (o_loads ob =? n) eqn:E1; cbn [andb] in Es; [|discriminate].
-            destruct (o_flag ob); [|discriminate]. injection Es as <-.
-            rewrite sget_aset, Z.eqb_refl. apply Z.eqb_eq in E1. auto.
-          * destruct (o_loads ob =? n) eqn:E1; cbn [andb] in Es; [|discriminate].
-            destruct (o_flag ob); [|discriminate]. injection Es as <-.
-            apply Z.eqb_eq in E1. auto.
-        + cbn [no_clear] in Hn. rewrite Z.eqb_refl in Hn. discriminate.
-        + destruct (o_loads ob =? n) eqn:E1; cbn [andb] in Es; [|discriminate].
-          destruct (Bool.eqb (o_flag ob) true); [|discriminate]. injection Es as <-.
-          apply Z.eqb_eq in E1. auto.
-      - split; [|discriminate]. rewrite (spec_step_other _ _ _ _ _ Es Et). exact Hg. }
-    destruct Hg1 as (Hg1 & Hobs).
-    assert (Hn' : no_clear h tr = true).
-    { destruct o; cbn [no_clear] in Hn; auto. apply andb_true_iff in Hn. tauto. }
-    destruct (IH _ _ _ _ Hr Hn' Hg1) as (Hfin & Hall). split; auto.
+    cbn [no_clear] in Hn. apply andb_true_iff in Hn. destruct Hn as [Hn1 Hn2].
+    apply negb_true_iff in Hn1.
+    destruct (spec_step_loaded _ _ _ _ _ _ Es Hn1 Hg) as (Hg1 & Hcur & Hobs).
+    rewrite <- Hcur in Hn2.
+    destruct (IH _ _ _ _ Hr Hn2 Hg1) as (Hfin & Hall). split; auto.
     intros o' ob' [Heq|Hin] Ht.
     + injection Heq as <- <-. auto.
     + eauto.
+Qed.
+
+(* the first loading access after a clear (or ever) loads exactly once *)
+Lemma first_access_loads t h p ob t' n :
+  spec_step t (OAccess h p) ob = Some t' -> loading p = true ->
+  sget (sp_h t) h = (n, false) -> o_loads ob = n + 1 /\ sget (sp_h t') h = (n + 1, true).
+Proof.
+  cbn [spec_step]. intros Hs Hl Hg. rewrite Hg, Hl in Hs.
+  destruct (o_loads ob =? n + 1) eqn:E1; cbn [andb] in Hs; [|discriminate].
+  destruct (o_flag ob); [|discriminate]. injection Hs as <-. cbn.
+  rewrite sget_aset, Z.eqb_refl. apply Z.eqb_eq in E1. auto.
 Qed.
